@@ -28,12 +28,33 @@ MUTATING METHODS (loads / stores; session 5): a method may take ONE further para
               E[k]    E : REFS, k : NAT -> the k-th ELEMENT of the list container: the very object stored there (IndexError = none)
   statements  E.append(x)   E : REFS, x an object -> Py.Heap.appendRef: the list container E is mutated IN PLACE, the element is the object itself
               self.<nat attr> += k   (k an int literal ≥ 0) -> Py.Heap.setOff: only the record of `self` changes
+
+BIT-MOVING METHODS (session 5, heapsrc2): any number of further parameters; a parameter is an object of a declared class (annotation), an
+`int` (INT), or what the caller DECLARES for it (Decl.ptypes: NAT for a length, BITSVAL for "an iterable of bits": only its items are read).
+A method may return an object, a BITS pointer (a bit array object: the id of its container) or an INT.
+  expressions a + b, a - b inside an ordering (Python ints: a difference is computed in Int); X.<p> for an undeclared attribute that the
+              class defines as `@property def p(self): return <expr>` (inlined)
+              E[:k]   E : BITS, k : NAT -> Py.Heap.sliceBits: a NEW container holding the first k bits (pointer context: assigned, returned)
+                                           | the VALUE `(σ.bitBuf E).take k` where only the items are read (argument of ba2int / extend / a BITSVAL parameter)
+              ba2int(V, signed=False) -> Py.Heap.ba2intU? (INT; raises on an empty V) ; int2ba(v, n, signed=False) -> Py.Heap.int2baU? (a BITSVAL)
+              X.m(a, ..)  another translated method with arguments (its own definition)
+  statements  E.extend(F)   E, F : REFS -> Py.Heap.extendRefs (the same as E += F)
+              E.extend(V)   E : BITS -> Py.Heap.extendBits?: the container E is extended IN PLACE by the items of V (TvmBitarray.extend: overflow check first)
+              del E[:k]     E : BITS -> Py.Heap.delBits?: the first k bits are deleted IN PLACE (TvmBitarray.__delitem__: underflow check first)
+              X.<list attr> += F   F : REFS -> Py.Heap.extendRefs: the list X.<attr> points to is extended IN PLACE by the ELEMENTS of F; the pointer stays
+              X.m(a, ..)    as a statement: the heap effect of the translated method, result dropped
+              for i in range(a, b): <statements without return>  -> Py.Heap.forRange a b σ (fun i τ => ..)   (bounds evaluated once)
+              self.<pointer attr> = E   (a mutating method re-points its receiver)
+  "raises" is `none`; the reading "a raising call leaves the heap as it was" (Py.Heap.result*) is checked by the validation (the receiver is
+  compared after a raising call too) and follows for the proved methods from their equality with the model step.
 """
 import ast
 
 from .pyexpr import Untranslatable
 
-BITS, REFS, INT, NAT, BOOL = 'bits', 'refs', 'int', 'nat', 'bool'
+BITS, REFS, INT, NAT, BOOL, BITSVAL = 'bits', 'refs', 'int', 'nat', 'bool', 'bitsval'
+LEAN_T = {INT: 'Int', NAT: 'Nat', BITSVAL: 'Bits'}
+LEAN_KW = {'from', 'at', 'end', 'by', 'do', 'fun', 'let', 'have', 'show', 'then', 'else', 'if', 'match', 'with', 'in', 'open', 'def', 'where', 'H', 'self', 'cls', 'some', 'none'}
 
 
 def OBJ(c):
@@ -47,8 +68,10 @@ class Decl:
        consts:  {('CellTypes', 'ordinary'): -1, ...}
        imports: {local name: (module, level)} allowed function-level imports"""
 
-    def __init__(self, classes, prims, consts, imports, elem=None):
+    def __init__(self, classes, prims, consts, imports, elem=None, ptypes=None, funcs=None):
         self.classes, self.prims, self.consts, self.imports = classes, prims, consts, imports
+        self.ptypes = ptypes or {}      # {(class, method): {parameter: type}} declared parameter types (NAT for a length, BITSVAL for an iterable of bits)
+        self.funcs = funcs or {}        # {class: {'ba2int', 'int2ba'}}: the module of the class imports these names from bitarray.util
         self.elem = elem                # class of the ELEMENTS of a list container (None: element reads / appends are not translated)
         self.defs = []
         self.done = {}
@@ -97,26 +120,41 @@ class HTr:
                 raise Untranslatable(f'{fn.name}: the parameter is not annotated with a declared class')
             self.env[names[1]] = ('self', OBJ(argcls))          # the Lean parameter is called `self`
             self.extra = None
+            self.params = []
         else:
-            if not names or names[0] != 'self' or len(names) > 2:
+            if not names or names[0] != 'self':
                 raise Untranslatable(f'{fn.name}: parameters {names}')
+            declared = decl.ptypes.get((cls, fn.name), {})
+            plist = []
+            for x in a.args[1:]:
+                ann = x.annotation
+                argcls = ann.value if isinstance(ann, ast.Constant) else (ast.unparse(ann) if ann is not None else None)
+                if x.arg in LEAN_KW or x.arg[0] in 'στ' or (x.arg[:1] in 'rbloci' and x.arg[1:].isdigit()) or not x.arg.isidentifier() or not x.arg.isascii():
+                    raise Untranslatable(f'{fn.name}: parameter name {x.arg}')
+                if x.arg in declared:
+                    t = declared[x.arg]
+                elif argcls in decl.classes:
+                    t = OBJ(argcls)
+                elif argcls == 'int':
+                    t = INT
+                else:
+                    raise Untranslatable(f'{fn.name}: the parameter {x.arg} is not annotated with a declared class')
+                plist.append((x.arg, t))
             self.env['self'] = ('self', OBJ(cls))
             self.extra = None
-            if len(names) == 2:
-                ann = a.args[1].annotation
-                argcls = ann.value if isinstance(ann, ast.Constant) else (ast.unparse(ann) if ann is not None else None)
-                if argcls not in decl.classes or names[1] in ('H', 'self', 'cls') or names[1].startswith('σ'):
-                    raise Untranslatable(f'{fn.name}: the parameter is not annotated with a declared class')
-                self.env[names[1]] = (names[1], OBJ(argcls))
-                self.extra = names[1]
+            self.params = plist
+            for pn, pt in plist:
+                self.env[pn] = (pn, pt)
         self.k = 0                                # index of the current heap variable
+        self.sp = 'σ'                             # its name prefix (`τ` inside a loop body)
+        self.in_loop = False
         self.n = 0
         self.lines = []
 
     # ---- helpers
     @property
     def s(self):
-        return 'σ' if self.k == 0 else f'σ{self.k}'
+        return self.sp if self.k == 0 else f'{self.sp}{self.k}'
 
     def fresh(self, p):
         self.n += 1
@@ -141,6 +179,50 @@ class HTr:
         self.lines.append(f'let {self.s} := {r}.1')
         self.lines.append(f'let {v} := {r}.2')
         return v
+
+    @staticmethod
+    def toint(t, ty):
+        return t if ty == INT else f'({t} : Int)' if t.isdigit() else f'(({t} : Nat) : Int)'
+
+    def num(self, x):
+        """a Python int expression inside an ordering -> (text, NAT | INT); a difference is computed in Int"""
+        if isinstance(x, ast.Constant) and isinstance(x.value, int) and not isinstance(x.value, bool) and x.value >= 0:
+            return str(x.value), NAT
+        if isinstance(x, ast.BinOp) and isinstance(x.op, (ast.Add, ast.Sub)):
+            (lv, lt), (rv, rt) = self.num(x.left), self.num(x.right)
+            if isinstance(x.op, ast.Add) and lt == NAT and rt == NAT:
+                return f'({lv} + {rv})', NAT
+            return f'({self.toint(lv, lt)} {"+" if isinstance(x.op, ast.Add) else "-"} {self.toint(rv, rt)})', INT
+        v, t = self.expr(x)
+        if t not in (NAT, INT):
+            raise Untranslatable(f'ordering of a {t}')
+        return v, t
+
+    def bits_prefix(self, e):
+        """E[:k] with E : BITS, k : NAT -> (pointer text, k text) | None"""
+        if isinstance(e, ast.Subscript) and isinstance(e.slice, ast.Slice) and e.slice.lower is None and e.slice.step is None and e.slice.upper is not None:
+            n_lines = len(self.lines)
+            base, bt = self.expr(e.value)
+            if bt != BITS:
+                del self.lines[n_lines:]
+                return None
+            k, kt = self.expr(e.slice.upper)
+            if kt != NAT or len(self.lines) != n_lines:
+                raise Untranslatable('bit slice bound is not a known non-negative int')
+            return base, k
+        return None
+
+    def val(self, e):
+        """a sequence of bits of which only the ITEMS are read (argument of extend / ba2int / a BITSVAL parameter) -> Lean `Bits`"""
+        bp = self.bits_prefix(e)
+        if bp is not None:
+            return f'(({self.s}.bitBuf {bp[0]}).take {bp[1]})'
+        v, t = self.expr(e)
+        if t == BITSVAL:
+            return v
+        if t == BITS:
+            return f'({self.s}.bitBuf {v})'
+        raise Untranslatable(f'a {t} where a sequence of bits is expected')
 
     # ---- expressions -> (lean text, type)
     def expr(self, e):
@@ -169,6 +251,21 @@ class HTr:
                 raise Untranslatable(f'attribute .{e.attr} of a {bt}')
             at = self.d.classes[bt[4:]]['attrs'].get(e.attr)
             if at is None:
+                props = [n for n in self.d.classes[bt[4:]]['node'].body if isinstance(n, ast.FunctionDef) and n.name == e.attr]
+                body = [x for x in props[0].body if not (isinstance(x, ast.Expr) and isinstance(x.value, ast.Constant))] if len(props) == 1 else []
+                if len(props) == 1 and [ast.unparse(x) for x in props[0].decorator_list] == ['property'] and len(body) == 1 and \
+                        isinstance(body[0], ast.Return) and body[0].value is not None and [x.arg for x in props[0].args.args] == ['self']:
+                    sub = HTr.__new__(HTr)                   # `@property def p(self): return <expr>` -> inlined
+                    sub.__dict__.update(self.__dict__)
+                    sub.env = {'self': (base, bt)}
+                    n_lines = len(self.lines)
+                    if isinstance(body[0].value, ast.BinOp):
+                        v, t = sub.num(body[0].value)
+                    else:
+                        v, t = sub.expr(body[0].value)
+                    if len(self.lines) != n_lines:
+                        raise Untranslatable(f'property {e.attr} allocates')
+                    return v, t
                 raise Untranslatable(f'attribute {bt[4:]}.{e.attr} is not declared')
             t, fld = at
             if fld.startswith('='):                      # derived: an expression over the object's other attributes
@@ -181,15 +278,11 @@ class HTr:
                 return v, t
             return f'({self.s}.obj {base}).{fld}', t
         if isinstance(e, ast.Compare) and len(e.ops) == 1 and isinstance(e.ops[0], (ast.GtE, ast.Gt, ast.LtE, ast.Lt)):
-            def nat(x):
-                if isinstance(x, ast.Constant) and isinstance(x.value, int) and not isinstance(x.value, bool) and x.value >= 0:
-                    return str(x.value)
-                v, t = self.expr(x)
-                if t != NAT:
-                    raise Untranslatable(f'ordering of a {t}')
-                return v
+            (lv, lt), (rv, rt) = self.num(e.left), self.num(e.comparators[0])
+            if lt != rt:
+                lv, rv = self.toint(lv, lt), self.toint(rv, rt)
             sym = {ast.GtE: '≥', ast.Gt: '>', ast.LtE: '≤', ast.Lt: '<'}[type(e.ops[0])]
-            return f'(decide ({nat(e.left)} {sym} {nat(e.comparators[0])}))', BOOL
+            return f'(decide ({lv} {sym} {rv}))', BOOL
         if isinstance(e, ast.Compare) and len(e.ops) == 1 and isinstance(e.ops[0], (ast.Eq, ast.NotEq)):
             l, r = self.expr(e.left), self.expr(e.comparators[0])
             if l[1] != r[1] or l[1] not in (INT, NAT, BOOL):
@@ -203,6 +296,9 @@ class HTr:
                 raise Untranslatable('conditional expression over non-booleans')
             return f'(if {c} then {a} else {b})', BOOL
         if isinstance(e, ast.Subscript):
+            bp = self.bits_prefix(e)
+            if bp is not None:
+                return self.step_state(f'Py.Heap.sliceBits {self.s} {bp[0]} {bp[1]}', 'b'), BITS
             base, bt = self.expr(e.value)
             s = e.slice
             if bt == REFS and not isinstance(s, ast.Slice):
@@ -224,13 +320,37 @@ class HTr:
 
     def call(self, e):
         f = e.func
+        if isinstance(f, ast.Name) and f.id in ('ba2int', 'int2ba') and f.id in self.d.funcs.get(self.cls, ()) and f.id not in self.env:
+            if [(k.arg, ast.unparse(k.value)) for k in e.keywords] != [('signed', 'False')]:
+                raise Untranslatable(f'{f.id}: only signed=False is declared')
+            if f.id == 'ba2int' and len(e.args) == 1:
+                v = self.val(e.args[0])
+                r = self.fresh('i')
+                self.lines.append(f'(Py.Heap.ba2intU? {v}).bind fun {r} =>')
+                return r, INT
+            if f.id == 'int2ba' and len(e.args) == 2:
+                (v, vt), (n, nt) = self.expr(e.args[0]), self.expr(e.args[1])
+                if vt != INT or nt != NAT:
+                    raise Untranslatable(f'int2ba of a {vt} and a {nt}')
+                r = self.fresh('v')
+                self.lines.append(f'(Py.Heap.int2baU? {v} {n}).bind fun {r} =>')
+                return r, BITSVAL
+            raise Untranslatable(f'call of {f.id}')
         if e.keywords:
             raise Untranslatable('keyword arguments')
         if isinstance(f, ast.Name) and f.id == 'len' and 'len' not in self.env and len(e.args) == 1:
             v, t = self.expr(e.args[0])
+            if t == BITS:
+                return f'({self.s}.bitBuf {v}).length', NAT
             if t != REFS:
                 raise Untranslatable(f'len of a {t}')
             return f'({self.s}.refBuf {v}).length', NAT
+        if isinstance(f, ast.Name) and f.id == 'bitarray' and 'bitarray' in self.d.funcs.get(self.cls, ()) and f.id not in self.env and len(e.args) == 1 \
+                and not e.keywords:
+            v, t = self.expr(e.args[0])                      # bitarray(x): a NEW plain array with the items of x
+            if t != BITS:
+                raise Untranslatable(f'bitarray of a {t}')
+            return self.step_state(f'Py.Heap.copyBits {self.s} {v}', 'b'), BITS
         if isinstance(f, ast.Name):
             cname = self.cls if (f.id == 'cls' and self.classmethod) else f.id
             c = self.d.classes.get(cname)
@@ -249,6 +369,11 @@ class HTr:
             term = f'{fn} {self.s} {" ".join(v for v, _ in args)}'
             return (self.bind_state(term, 'o') if raises else self.step_state(term, 'o')), OBJ(cname)
         if isinstance(f, ast.Attribute):
+            if f.attr == 'tobytes' and not e.args and not e.keywords:
+                base, bt = self.expr(f.value)
+                if bt != BITS:
+                    raise Untranslatable(f'tobytes of a {bt}')
+                return f'(bitsToBytes ({self.s}.bitBuf {base}))', 'bytesval'
             if f.attr == 'copy' and not e.args:
                 base, bt = self.expr(f.value)
                 if bt == BITS:
@@ -273,12 +398,10 @@ class HTr:
                 self.k += 1
                 self.lines.append(f'let {self.s} := {r}')
                 return base, bt
-            if e.args:
-                raise Untranslatable(f'call of {cname}.{f.attr} with arguments')
             callee = self.d.find(cname, f.attr)
             body = [s for s in callee.body if not (isinstance(s, ast.Expr) and isinstance(s.value, ast.Constant)) and
                     not isinstance(s, ast.ImportFrom)]
-            if len(body) == 1 and isinstance(body[0], ast.Return) and not callee.decorator_list:
+            if not e.args and len(body) == 1 and isinstance(body[0], ast.Return) and not callee.decorator_list:
                 sub = HTr.__new__(HTr)                       # try: a boolean method = one `return <bool expr>` -> inlined
                 sub.__dict__.update(self.__dict__)
                 sub.env = {'self': (base, bt)}
@@ -292,7 +415,19 @@ class HTr:
                     pass
                 del self.lines[n_lines:]
             info = self.d.method(cname, f.attr)
-            return self.bind_state(f'{info["lean"]} H {self.s} {base}', 'o'), info['ret']
+            if len(e.args) != len(info['params']):
+                raise Untranslatable(f'call of {cname}.{f.attr}: {len(e.args)} arguments')
+            args = []
+            for a, (pn, pt) in zip(e.args, info['params']):
+                if pt == BITSVAL:
+                    args.append(self.val(a))
+                else:
+                    v, t = self.expr(a)
+                    if t != pt:
+                        raise Untranslatable(f'call of {cname}.{f.attr}: argument {pn} is a {t}')
+                    args.append(v)
+            pre = 'o' if info['ret'].startswith('obj:') else 'b' if info['ret'] == BITS else 'y' if info['ret'] == 'bytesval' else 'i'
+            return self.bind_state(' '.join([f'{info["lean"]} H {self.s} {base}'] + args), pre), info['ret']
         raise Untranslatable(f'call {ast.unparse(e)[:60]}')
 
     def check_imports(self, fn):
@@ -307,6 +442,9 @@ class HTr:
     # ---- statements
     def block(self, stmts):
         if not stmts:
+            if self.in_loop:
+                self.lines.append(f'some {self.s}')
+                return
             raise Untranslatable('control reaches the end of the method without return')
         s, rest = stmts[0], stmts[1:]
         if isinstance(s, ast.Expr) and isinstance(s.value, ast.Constant):
@@ -316,20 +454,135 @@ class HTr:
         if isinstance(s, ast.Return):
             if s.value is None:
                 raise Untranslatable('bare return')
+            if self.in_loop:
+                raise Untranslatable('return inside a loop')
             v, t = self.expr(s.value)
-            if not t.startswith('obj:'):
+            if not t.startswith('obj:') and t not in (BITS, INT, 'bytesval'):
                 raise Untranslatable(f'the method returns a {t}')
             self.ret = t
             self.lines.append(f'some ({self.s}, {v})')
             return
-        if isinstance(s, ast.If):
-            if s.orelse or len(s.body) != 1 or not isinstance(s.body[0], ast.Raise):
+        if isinstance(s, ast.If) and len(s.body) == 1 and isinstance(s.body[0], ast.Raise):
+            if s.orelse:
                 raise Untranslatable('if statement other than `if c: raise`')
             n_lines = len(self.lines)
             c, t = self.expr(s.test)
             if t != BOOL or len(self.lines) != n_lines:
                 raise Untranslatable('condition')
             self.lines.append(f'if {c} then none else')
+            return self.block(rest)
+        if (isinstance(s, ast.Expr) and isinstance(s.value, ast.Call) and isinstance(s.value.func, ast.Attribute) and s.value.func.attr == 'extend'
+                and len(s.value.args) == 1 and not s.value.keywords):
+            tgt, tt = self.expr(s.value.func.value)
+            if tt == REFS:                                   # l.extend(m) = l += m: in place, by the elements
+                v, t = self.expr(s.value.args[0])
+                if t != REFS:
+                    raise Untranslatable(f'list.extend of a {t}')
+                prev = self.s
+                self.k += 1
+                self.lines.append(f'let {self.s} := Py.Heap.extendRefs {prev} {tgt} {v}')
+                return self.block(rest)
+            if tt != BITS:
+                raise Untranslatable(f'extend of a {tt}')
+            v = self.val(s.value.args[0])
+            r = self.fresh('r')
+            self.lines.append(f'(Py.Heap.extendBits? {self.s} {tgt} {v}).bind fun {r} =>')
+            self.k += 1
+            self.lines.append(f'let {self.s} := {r}')
+            return self.block(rest)
+        if (isinstance(s, ast.Expr) and isinstance(s.value, ast.Call) and isinstance(s.value.func, ast.Attribute) and s.value.func.attr in ('append', 'fill')
+                and not s.value.keywords and isinstance(s.value.func.value, ast.Name) and self.env.get(s.value.func.value.id, (None, None))[1] == BITS):
+            tgt = self.env[s.value.func.value.id][0]         # on a LOCAL bit array pointer: in place on whatever container it points to
+            a = s.value.args
+            if s.value.func.attr == 'append' and len(a) == 1 and isinstance(a[0], ast.Constant) and a[0].value in (0, 1) and not isinstance(a[0].value, bool):
+                term = f'Py.Heap.appendBit {self.s} {tgt} {"true" if a[0].value else "false"}'
+            elif s.value.func.attr == 'fill' and not a:
+                term = f'Py.Heap.fillBits {self.s} {tgt}'
+            else:
+                raise Untranslatable(f'statement {ast.unparse(s)[:50]}')
+            self.k += 1
+            self.lines.append(f'let {self.s} := {term}')
+            return self.block(rest)
+        if isinstance(s, ast.If) and not s.orelse and not any(isinstance(n, (ast.Raise, ast.Return, ast.Assign, ast.AugAssign, ast.AnnAssign, ast.Delete, ast.For, ast.If))
+                                                               for b in s.body for n in ast.walk(b)):
+            n_lines = len(self.lines)                        # `if c: <in-place statements>`: the heap after it is one or the other
+            if isinstance(s.test, ast.BinOp) and isinstance(s.test.op, ast.Mod) and isinstance(s.test.right, ast.Constant) and isinstance(s.test.right.value, int) \
+                    and not isinstance(s.test.right.value, bool) and s.test.right.value > 0:
+                v, t = self.expr(s.test.left)
+                if t != NAT:
+                    raise Untranslatable(f'modulus of a {t}')
+                c = f'(decide ({v} % {s.test.right.value} ≠ 0))'
+            else:
+                c, t = self.expr(s.test)
+                if t != BOOL:
+                    raise Untranslatable('condition')
+            if len(self.lines) != n_lines:
+                raise Untranslatable('condition')
+            sub = HTr.__new__(HTr)
+            sub.__dict__.update(self.__dict__)
+            sub.env = dict(self.env)
+            sub.lines, sub.in_loop = [], True
+            sub.block(list(s.body))
+            if not sub.lines[-1].startswith('some ') or any('.bind fun' in l for l in sub.lines):
+                raise Untranslatable('if body may raise')
+            self.n = sub.n
+            prev = self.s
+            self.k = sub.k + 1
+            body = ' '.join(l + ';' for l in sub.lines[:-1]) + ' ' + sub.lines[-1][5:]
+            self.lines.append(f'let {self.s} := if {c} then ({body.strip()}) else {prev}')
+            return self.block(rest)
+        if isinstance(s, ast.Delete) and len(s.targets) == 1:
+            bp = self.bits_prefix(s.targets[0])
+            if bp is None:
+                raise Untranslatable(f'statement {ast.unparse(s)[:50]}')
+            r = self.fresh('r')
+            self.lines.append(f'(Py.Heap.delBits? {self.s} {bp[0]} {bp[1]}).bind fun {r} =>')
+            self.k += 1
+            self.lines.append(f'let {self.s} := {r}')
+            return self.block(rest)
+        if (isinstance(s, ast.AugAssign) and isinstance(s.op, ast.Add) and isinstance(s.target, ast.Attribute) and isinstance(s.target.value, ast.Name)
+                and s.target.value.id in self.env and self.env[s.target.value.id][1].startswith('obj:')):
+            base, bt = self.env[s.target.value.id]
+            at = self.d.classes[bt[4:]]['attrs'].get(s.target.attr)
+            if at is not None and at[0] == REFS:
+                if any(isinstance(n, ast.FunctionDef) and n.name == s.target.attr for n in self.d.classes[bt[4:]]['node'].body):
+                    raise Untranslatable(f'{s.target.attr} is a property: `+=` would call its setter')
+                ptr = f'({self.s}.obj {base}).{at[1]}'
+                v, t = self.expr(s.value)
+                if t != REFS:
+                    raise Untranslatable(f'list += {t}')
+                prev = self.s
+                self.k += 1
+                self.lines.append(f'let {self.s} := Py.Heap.extendRefs {prev} {ptr} {v}')
+                return self.block(rest)
+        if (isinstance(s, ast.Expr) and isinstance(s.value, ast.Call) and isinstance(s.value.func, ast.Attribute) and s.value.func.attr != 'append'
+                and isinstance(s.value.func.value, ast.Name) and s.value.func.value.id in self.env
+                and self.env[s.value.func.value.id][1].startswith('obj:')):
+            self.call(s.value)                               # the heap effect of another translated method; its result is dropped
+            return self.block(rest)
+        if (isinstance(s, ast.For) and not s.orelse and isinstance(s.target, ast.Name) and isinstance(s.iter, ast.Call) and isinstance(s.iter.func, ast.Name)
+                and s.iter.func.id == 'range' and 'range' not in self.env and len(s.iter.args) == 2 and not s.iter.keywords and not self.in_loop):
+            n_lines = len(self.lines)
+            (lo, lot), (hi, hit) = self.expr(s.iter.args[0]), self.expr(s.iter.args[1])
+            iv = s.target.id
+            if lot != NAT or hit != NAT or len(self.lines) != n_lines or iv in self.env or iv in LEAN_KW or not iv.isascii() or not iv.isidentifier() \
+                    or (iv[:1] in 'rbloci' and iv[1:].isdigit()):
+                raise Untranslatable(f'loop {ast.unparse(s.iter)[:40]}')
+            for n in ast.walk(s):
+                if isinstance(n, (ast.Break, ast.Continue, ast.Return)) or (isinstance(n, ast.Name) and n.id == iv and isinstance(n.ctx, ast.Store) and n is not s.target):
+                    raise Untranslatable('loop body: break / continue / return / assignment to the loop variable')
+            sub = HTr.__new__(HTr)
+            sub.__dict__.update(self.__dict__)
+            sub.env = dict(self.env)
+            sub.env[iv] = (iv, NAT)
+            sub.lines, sub.k, sub.sp, sub.in_loop = [], 0, 'τ', True
+            sub.block(list(s.body))
+            self.n = sub.n
+            r = self.fresh('r')
+            self.lines.append(f'(Py.Heap.forRange {lo} {hi} {self.s} fun {iv} τ =>')
+            self.lines += ['    ' + l for l in sub.lines[:-1]] + ['    ' + sub.lines[-1] + f').bind fun {r} =>']
+            self.k += 1
+            self.lines.append(f'let {self.s} := {r}')
             return self.block(rest)
         if (isinstance(s, ast.Expr) and isinstance(s.value, ast.Call) and isinstance(s.value.func, ast.Attribute) and s.value.func.attr == 'append'
                 and len(s.value.args) == 1 and not s.value.keywords):
@@ -358,7 +611,7 @@ class HTr:
                     raise Untranslatable(f'assignment to {tg.id}')
                 self.env[tg.id] = self.expr(s.value)
                 return self.block(rest)
-            if isinstance(tg, ast.Attribute) and isinstance(tg.value, ast.Name) and tg.value.id in self.env and tg.value.id != 'self' \
+            if isinstance(tg, ast.Attribute) and isinstance(tg.value, ast.Name) and tg.value.id in self.env \
                     and not (self.classmethod and self.env[tg.value.id][0] == 'self'):
                 base, bt = self.env[tg.value.id]
                 at = self.d.classes[bt[4:]]['attrs'].get(tg.attr) if bt.startswith('obj:') else None
@@ -375,7 +628,7 @@ class HTr:
     def translate(self):
         self.check_imports(self.fn)
         for n in ast.walk(self.fn):
-            if isinstance(n, (ast.For, ast.While, ast.Try, ast.With, ast.Lambda, ast.Global, ast.Nonlocal, ast.Yield, ast.Await)) or \
+            if isinstance(n, (ast.While, ast.Try, ast.With, ast.Lambda, ast.Global, ast.Nonlocal, ast.Yield, ast.Await)) or \
                     (isinstance(n, ast.FunctionDef) and n is not self.fn):
                 raise Untranslatable(f'{self.fn.name}: {type(n).__name__}')
         self.ret = None
@@ -383,7 +636,8 @@ class HTr:
         lean = f'{self.cls}_{self.fn.name}'
         text = ' '.join(ast.unparse(self.fn).split()).replace('-/', '- /').replace('/-', '/ -')
         body = '\n'.join('  ' + l for l in self.lines)
-        extra = f' ({self.extra} : Nat)' if self.extra else ''
-        return dict(lean=lean, ret=self.ret,
+        extra = ''.join(f' ({pn} : {LEAN_T.get(pt, "Nat")})' for pn, pt in self.params)
+        rt = 'Int' if self.ret == INT else 'Bytes' if self.ret == 'bytesval' else 'Nat'
+        return dict(lean=lean, ret=self.ret, params=list(self.params),
                     text=f'/-- {self.cls}.{self.fn.name}\n    source: `{text[:240]}` -/\n'
-                         f'def {lean} (H : Bytes → Bytes) (σ : State) (self : Nat){extra} : Option (State × Nat) :=\n{body}\n')
+                         f'def {lean} (H : Bytes → Bytes) (σ : State) (self : Nat){extra} : Option (State × {rt}) :=\n{body}\n')
